@@ -217,8 +217,14 @@ impl<'a> Hook for Adv<'a> {
                     // request (e.g. it contains the requested last-N section plus older genuine headers), the resulting state
                     // is the true state of that last header: that is a fully verified proof, not a violation.
                     let (td, header) = w.c().stored_tip();
-                    let chain = &w.chains[w.peers[pi].chain];
-                    let truthful = chain.num_of(&header.calc_header_hash()).map(|n| chain.td(n) == td).unwrap_or(false);
+                    let on_a_chain = |hash: &ckb_types::packed::Byte32, td: &ckb_types::U256| w.chains.iter().any(|c| c.num_of(hash).map(|n| c.td(n) == *td).unwrap_or(false));
+                    let peer_ok = w
+                        .c()
+                        .peers
+                        .get_state(&w.peers[pi].id)
+                        .and_then(|st| st.get_prove_state().map(|p| on_a_chain(&p.get_last_header().header().hash(), &p.get_last_header().total_difficulty())))
+                        .unwrap_or(true);
+                    let truthful = on_a_chain(&header.calc_header_hash(), &td) && peer_ok;
                     if truthful {
                         self.out.count("authentic_replayed_answer_accepted_with_true_state", 1);
                         return;
